@@ -1,30 +1,40 @@
 (* C02 — saving is repeatable and never alters the in-memory model; block level, on the SyncIR programs
    GENERATED from /repo. *)
-From NiflyVerif Require Import IR Exec IREq Refs RtDefs RtProofs WiDefs WiProofs Total Versions IRCur.
+From NiflyVerif Require Import IR Exec IREq Refs RtDefs RtProofs WiDefs WiProofs WkDefs WkProofs WkSound Total Versions IRCur.
 Local Open Scope N_scope.
 
-(* The write-once discipline is sound, for ALL programs of the (loop-free) fragment it accepts, all version
-   triples and header-string oracles: if [wchk] accepts the program from the empty sets, then for every object o
-   that the program writes successfully (leaving the object o1 behind: scalars stored back in range, vectors
-   clamped, strings cut), writing o1 again succeeds, emits exactly the same bytes and leaves every scalar,
-   container size and byte array of o1 unchanged. *)
-Theorem C02_write_idem : forall v hs s W' L',
-  wchk (targets s) v s [] [] = Some (W', L') ->
+(* The write-once discipline is sound, for ALL programs it accepts, all version triples and header-string
+   oracles: if [kchk] accepts the program from the empty sets, then for every object o that the program writes
+   successfully (leaving the object o1 behind: scalars stored back in range, vectors clamped, empty references
+   removed, strings cut), writing o1 again succeeds, emits exactly the same bytes and leaves every scalar,
+   container size and byte array of o1 unchanged ([ext_eq]: every instance of every field).
+   The discipline: every field NAME is modified by one statement only; inside `for x` that statement modifies
+   the instance whose index vector holds x at a fixed position (different iterations own different instances:
+   the index encoding is injective, EncInj.enc_key_inj); every value a condition, count, index or right-hand
+   side reads is never modified, or was modified earlier and inside the current iteration's slice; a reference
+   array (CleanInvalidRefs + count + element loop) is one unit whose second run finds nothing to remove. *)
+Theorem C02_write_idem : forall v hs s C' L',
+  kchk (targets s) v [] s [] [] = Some (C', L') ->
   forall o o1, exec Wr v hs s o = Ok o1 ->
   exists bytes, out o1 = rev bytes ++ out o /\
-    exists o2, exec Wr v hs s o1 = Ok o2 /\ out o2 = rev bytes ++ out o1 /\ store_ext o2 o1.
-Proof. exact write_idem. Qed.
+    exists o2, exec Wr v hs s o1 = Ok o2 /\ out o2 = rev bytes ++ out o1 /\ ext_eq o2 o1.
+Proof. exact write_idem_loops. Qed.
 Print Assumptions C02_write_idem.
 
-(* per block type and version (obligation [wchk_block], discharged by computation on the regenerated model):
+(* per block type and version (obligation [kchk_block], discharged by computation on the regenerated model):
    the Sync chain of the block is idempotent in write mode *)
 Theorem C02_block_write_idem : forall v hs b,
-  wchk_block v b = true ->
+  kchk_block v b = true ->
   forall o o1, exec Wr v hs (snd b) o = Ok o1 ->
   exists bytes, out o1 = rev bytes ++ out o /\
-    exists o2, exec Wr v hs (snd b) o1 = Ok o2 /\ out o2 = rev bytes ++ out o1 /\ store_ext o2 o1.
-Proof. exact block_write_idem. Qed.
+    exists o2, exec Wr v hs (snd b) o1 = Ok o2 /\ out o2 = rev bytes ++ out o1 /\ ext_eq o2 o1.
+Proof. exact block_write_idem_loops. Qed.
 Print Assumptions C02_block_write_idem.
+
+(* the two facts the loop rule rests on *)
+Theorem C02_index_encoding_injective : forall f l1 l2, enc_key f l1 = enc_key f l2 -> l1 = l2.
+Proof. exact EncInj.enc_key_inj. Qed.
+Print Assumptions C02_index_encoding_injective.
 
 (* the round trip shared with C01: an object read back from a save agrees with the saved object on every
    tracked value (see Properties_C01.v for the statement's reading) *)
@@ -40,10 +50,10 @@ Print Assumptions C02_block_round_trip.
 (* the block types for which the idempotence obligation is discharged for ALL supported version triples,
    and the per-version counts *)
 Definition C02_proved_ids : list N :=
-  map fst (filter (fun x => forallb (fun v => wchk_block v (snd x)) supported_versions) IRCur.block_table).
+  map fst (filter (fun x => forallb (fun v => kchk_block v (snd x)) supported_versions) IRCur.block_table).
 Eval vm_compute in C02_proved_ids.
 Definition C02_proved_per_version : list nat :=
-  map (fun v => length (filter (fun x => wchk_block v (snd x)) IRCur.block_table)) supported_versions.
+  map (fun v => length (filter (fun x => kchk_block v (snd x)) IRCur.block_table)) supported_versions.
 Eval vm_compute in C02_proved_per_version.
 
 (* non-vacuity: a field assigned after it was transferred is rejected (the second write would emit another
@@ -51,9 +61,18 @@ Eval vm_compute in C02_proved_per_version.
 Example C02_check_discriminates :
   let bad := SSeq (SSync 5 [] (PInt false 4)) (SAssign 5 [] (PInt false 4) (EConst 7)) in
   let good := SSeq (SAssign 5 [] (PInt false 4) (EConst 7)) (SSync 6 [] (PInt false 4)) in
-  wchk (targets bad) (mkVer 0 0 0) bad [] [] = None /\
-  exists r, wchk (targets good) (mkVer 0 0 0) good [] [] = Some r.
+  kchk (targets bad) (mkVer 0 0 0) [] bad [] [] = None /\
+  exists r, kchk (targets good) (mkVer 0 0 0) [] good [] [] = Some r.
 Proof. split; [reflexivity|eexists; reflexivity]. Qed.
+
+(* loops: an array whose elements are indexed by the loop variable is accepted; one that writes the same
+   instance in every iteration is rejected *)
+Example C02_loop_discriminates :
+  let good := SSeq (SSync 5 [] (PInt false 4)) (SFor 1 (ELoad 5 []) (SSync 6 [ILocal 1] (PInt false 2))) in
+  let bad := SSeq (SSync 5 [] (PInt false 4)) (SFor 1 (ELoad 5 []) (SSync 6 [] (PInt false 2))) in
+  (exists r, kchk (targets good) (mkVer 0 0 0) [] good [] [] = Some r) /\
+  kchk (targets bad) (mkVer 0 0 0) [] bad [] [] = None.
+Proof. split; [eexists; reflexivity|reflexivity]. Qed.
 
 (* a concrete second write: the clamp of an over-long NiString is applied once, the second write repeats it *)
 Example C02_second_write_repeats :
